@@ -97,6 +97,9 @@ func RandomHistory(r *Rng, base string) (p *ref.Problem, ops []Op) {
 		if !sat {
 			shape = 7 + r.Intn(5)
 		}
+		if shape == 6 && n+3 > 14 { // keep the conjunction within reach of the truth table
+			shape = 11
+		}
 		switch shape {
 		case 0: // already satisfied by a fixed literal
 			if len(fixedTrue) > 0 {
